@@ -324,6 +324,8 @@ def _run_contract(args):
                     except Exception as e:  # noqa: BLE001
                         rec["witness"] = {"__error__": f"{type(e).__name__}: {e}"}
                     rec["goal"] = str(z3.simplify(ob.goal))[:2000]
+                    # does the counter-model live in the arbitrary state assumed at a loop head (havoc symbols are named <var>@L<loop>)?
+                    rec["havoc_dependent"] = any("@L" in a.sexpr() for a in ob.assumptions) or "@L" in ob.goal.sexpr()
                     rec["pc"] = [str(a)[:300] for a in ob.assumptions[-12:]]
                     rec["notes"] = list(P.notes)
                 res["obligations"].append(rec)
@@ -602,6 +604,11 @@ def run_property(prop, tier="quick", seed=0, only=None, extra=None):
                 print(f"NOTE property={prop} pinned-behaviour obligation {full} no longer holds, but the property statement "
                       f"holds on the counterexample ({(rep or {}).get('detail', 'no replay')[:300]}); see {rf}")
             continue
+        if rep is not None and not rep.get("reproduced") and not rep.get("spurious") and ob.get("havoc_dependent") and ".inv.init" not in full:
+            # The counter-model starts from the arbitrary state a loop invariant admits and no real input reproduces it: the invariant supplied by the
+            # contract is too weak for this (possibly refactored) loop -- a failed proof, not a violation.
+            undecided.append((c.name, f"{ob['name']}: refuted only from abstract loop state, not reproducible on the real code ({(rep.get('detail') or '')[:120]})"))
+            continue
         reported.add(full)
         if rep and rep.get("reproduced"):
             lines.append(f"VIOLATION property={prop} replay={rf} obligation={full}")
@@ -615,9 +622,8 @@ def run_property(prop, tier="quick", seed=0, only=None, extra=None):
     for bc, v in bviol:
         sig = v.get("signature")
         # findings recorded against another check (or against a deductive obligation only) do not apply to this bounded tier
-        applicable = [k for k in known if (k.get("check") is None and not k.get("obligation")) or
-                      (k.get("check") and (f"bounded.{bc['check']}" == k["check"] or f"bounded.{bc['check']}".startswith(k["check"] + ".")))
-                      or (k.get("obligation") and k.get("signatures"))]
+        applicable = [k for k in known if (k.get("check") is None and (not k.get("obligation") or k.get("signature") or k.get("signatures"))) or
+                      (k.get("check") and (f"bounded.{bc['check']}" == k["check"] or f"bounded.{bc['check']}".startswith(k["check"] + ".")))]
         kf = match_known(applicable, sig, v.get("root_cause"), allow_class=bool(bc.get("class_match")))
         if kf is not None:
             known_hits.append((kf, bc["check"]))
